@@ -674,8 +674,12 @@ class Grid:
                 array = array * metric
 
             # if chunked along core dim then we need map_overlap
+            # (check the array actually passed on: a lazy metric may have chunked it)
             core_dim = self._get_dims_from_axis(data, ax_name)
-            if _has_chunked_core_dims(data_unpacked, core_dim):
+            array_unpacked = _maybe_unpack_vector_component(array)
+            if dask == "forbidden" and isinstance(array_unpacked.data, Dask_Array):
+                dask = "parallelized"
+            if _has_chunked_core_dims(array_unpacked, core_dim):
                 # cumsum is a special case because it can't be correctly applied chunk-wise with map_overlap
                 # (it would need blockwise instead)
                 map_overlap = True if funcname != "cumsum" else False
